@@ -28,7 +28,7 @@ PROPS = {
  "C14": {"level": "proof", "lean_module": "ClipVerif.Props.C14", "stages": [GEN, MOD, S("c14-search")]},
  "C15": {"level": "proof", "lean_module": "ClipVerif.Props.C15", "stages": [GEN, MOD, S("c15-search")]},
  "C16": {"level": "proof", "lean_module": "ClipVerif.Props.C16", "stages": [GEN, MOD, S("c16-search")]},
- "C17": {"level": "other", "lean_module": "ClipVerif.Props.C17", "stages": [WIND, S("c17-search")]},
+ "C17": {"level": "other", "lean_module": "ClipVerif.Props.C17", "stages": [WIND, MOD, S("c17-search")]},
  "C18": {"level": "other", "lean_module": "ClipVerif.Props.C18", "stages": [S("c18-hammer", binary="hx-race")]},
- "C19": {"level": "other", "lean_module": "ClipVerif.Props.C19", "stages": [WIND, GEN, S("c19-search")]},
+ "C19": {"level": "other", "lean_module": "ClipVerif.Props.C19", "stages": [WIND, GEN, MOD, S("c19-search")]},
 }
